@@ -434,13 +434,17 @@ def run_task(task):
     else:
         _, nsec, kinds, bodies, src = spec
         prob = SearchB(ocfg, nsec, kinds, bodies, True, src)
-    stats, viols = explore.bfs(prob, drv, cid, deadline=deadline)
+    # with syntax highlighting on, the highlighter's parse state is not part of the snapshot:
+    # such searches enumerate histories without deduplication
+    dedup = opts.get("syntax-theme") in (None, "none")
+    stats, viols = explore.bfs(prob, drv, cid, deadline=deadline, dedup=dedup)
     drv.drop(cid)
     for v in viols:
         v.args = args
         v.config_label = label
     d = stats.merge_dict()
-    d.update(label=label, spec=spec[:2], violations=viols, args=args, caller=None)
+    d.update(label=label, spec=spec[:2] + (() if dedup else ("no-dedup",)), violations=viols, args=args,
+             caller=None)
     return d
 
 
@@ -471,6 +475,13 @@ def plan(tier):
     for spec in deep:
         tasks.append((spec, "default", {}))
         tasks.append((spec, "line-numbers=on", {"line-numbers": True}))
+    # highlighting on (file name f.txt -> plain text syntax; and a Rust file name through search B is
+    # not available, so the hunk contents are highlighted as plain text but through the real highlighter path)
+    hl = {"syntax-theme": "Monokai Extended", "minus-style": "syntax 101", "plus-style": "syntax 104",
+          "zero-style": "syntax 107", "minus-emph-style": "syntax 103", "plus-emph-style": "syntax 106",
+          "minus-non-emph-style": "syntax 102", "plus-non-emph-style": "syntax 105"}
+    tasks.append((("A", "unified", CONTENTS_QUICK, 3 if tier == "quick" else 4, 1), "highlighting=on", hl))
+    tasks.append((("B", 2, None, ["ctx", "minusplus"], "git"), "highlighting=on", hl))
     return tasks, d, len(configs)
 
 
